@@ -33,6 +33,12 @@ HARNESSES = [
     dict(name="fz_oob", src="props/oob.cpp", variant="asan", kind="fuzz", cflags=["-DVF_FUZZ", '-DVF_FUZZ_PROP="oob"']),
     dict(name="traps_asan", src="props/traps.cpp", variant="asan"),
     dict(name="formats_asan", src="props/formats.cpp", variant="asan"),
+    dict(name="fz_regions", src="props/regions.cpp", variant="asan", kind="fuzz", cflags=["-DVF_FUZZ", '-DVF_FUZZ_PROP="canon"']),
+    dict(name="fz_matrix", src="props/matrix.cpp", variant="asan", kind="fuzz", cflags=["-DVF_FUZZ", '-DVF_FUZZ_PROP="matrix"']),
+    dict(name="fz_traps", src="props/traps.cpp", variant="asan", kind="fuzz", cflags=["-DVF_FUZZ", '-DVF_FUZZ_PROP="traps"']),
+    dict(name="fz_glyphs", src="props/glyphs.cpp", variant="asan_smallglyph", kind="fuzz",
+         cflags=["-DVF_FUZZ", '-DVF_FUZZ_PROP="cache"', "-DPIXMAN_VERIF_GLYPH_HIGH_WATER=8", "-DPIXMAN_VERIF_GLYPH_LOW_WATER=4"]),
+    dict(name="fz_filter", src="props/filter.cpp", variant="asan", kind="fuzz", cflags=["-DVF_FUZZ", '-DVF_FUZZ_PROP="filter"']),
     dict(name="threads", src="props/threads.cpp", variant="plain"),
     dict(name="threads_tsan", src="props/threads.cpp", variant="tsan"),
 ]
@@ -46,11 +52,12 @@ CHECKS["C05"] = dict(
           "from 0-24 arbitrary (overlapping/degenerate/inverted) boxes, 16- and 32-bit API, coordinates on a dense lattice, near "
           "INT16/INT32 limits and mixed; every pool region is compared after every step with an independent interval-arithmetic "
           "model (point-set equality; operands must be unchanged; return must be TRUE). Non-trivial = some step produced a result "
-          "with >= 2 rectangles or used an aliased result/operand; distinct = distinct serialised histories."),
+          "with >= 2 rectangles or used an aliased result/operand; distinct = distinct serialised histories."
+          " Also run coverage-guided: the libFuzzer target fz_regions decodes the fuzzer's bytes through the same generator into the same oracle (ASan build)."),
     jobs=[
         dict(harness="regions", prop="ops", cases=T(12000, 150000), procs=T(6, 16)),
         dict(harness="regions_asan", prop="ops", cases=T(3000, 40000), procs=T(2, 4)),
-    ],
+          dict(harness="fz_regions", prop="canon", kind="fuzz", cases=T(40000, 1500000), procs=T(2, 3), max_len=400)],
     floor=T(20000, 400000), nt_floor=T(2000, 20000),
     assumptions=["model in harness/ref_region.hpp is the specification of set algebra on integer points",
                  "operations whose arguments overflow the coordinate type (x+width beyond the limit) are outside the stated domain and not generated",
@@ -64,11 +71,12 @@ CHECKS["C06"] = dict(
           "step every pool region must satisfy the canonical-form predicate written from the statement, have exactly the rectangle "
           "list of the model's canonical builder, tight extents, no list for a single rectangle, selfcheck() TRUE, and equal(X,Y) "
           "must equal model equality for all 16 pairs. Non-trivial = >= 3 steps with multi-rectangle results and a pair of equal "
-          "non-empty point sets in different pool slots."),
+          "non-empty point sets in different pool slots."
+          " Also run coverage-guided: the libFuzzer target fz_regions decodes the fuzzer's bytes through the same generator into the same oracle (ASan build)."),
     jobs=[
         dict(harness="regions", prop="canon", cases=T(5000, 80000), procs=T(6, 16)),
         dict(harness="regions_asan", prop="canon", cases=T(1200, 20000), procs=T(2, 4)),
-    ],
+          dict(harness="fz_regions", prop="canon", kind="fuzz", cases=T(40000, 1500000), procs=T(2, 3), max_len=400)],
     floor=T(8000, 200000), nt_floor=T(500, 5000),
     assumptions=["canonical-form predicate and canonical builder in harness/ref_region.hpp are written from the property statement"],
 )
@@ -100,8 +108,10 @@ CHECKS["C11"] = dict(
           "singular matrices for invert; doubles on/off the 16.16 grid and within 2 units of +-32768 for conversion. Oracle: exact "
           "__int128 products/quotients (nearest for |w|<65536, within 1 unit otherwise; 1.5 units for the three separately rounded "
           "products of multiply), TRUE/FALSE must match representability, no abort. Non-trivial = not the affine w==1 shortcut / "
-          "overflowing / aliased etc. as labelled; distinct = distinct serialised cases."),
-    jobs=[dict(harness="matrix", prop="matrix", cases=T(250000, 4000000), procs=T(8, 16))],
+          "overflowing / aliased etc. as labelled; distinct = distinct serialised cases."
+          " Also run coverage-guided: the libFuzzer target fz_matrix decodes the fuzzer's bytes through the same generator into the same oracle (ASan build)."),
+    jobs=[dict(harness="matrix", prop="matrix", cases=T(250000, 4000000), procs=T(8, 16)),
+          dict(harness="fz_matrix", prop="matrix", kind="fuzz", cases=T(60000, 3000000), procs=T(2, 3), max_len=400)],
     floor=T(1000000, 30000000), nt_floor=T(100000, 1000000),
     assumptions=["'correctly rounded' for multiply/scale/rotate/translate is read as: each 16.16 product rounded to nearest (DESIGN.md C11 Care)",
                  "1/sx may be the floor or the ceiling of the exact quotient",
@@ -115,8 +125,10 @@ CHECKS["C18"] = dict(
           "powers of two, 1+-ulp, simple fractions and negative values, subsample bits 0..8 per axis (capped so that a table has "
           "<= 16384 entries); ASan build. Oracle: non-NULL, allocation >= announced length, integral header equal to the request, "
           "n_values == 4 + w*2^bx + h*2^by, every phase sums to exactly 65536 (64-bit sum), set_filter accepts, and for kernels up "
-          "to 200 taps a constant a8r8g8b8 image stays constant under the filter. Non-trivial = width >= 2 or >= 1 phase bit on an axis."),
-    jobs=[dict(harness="filter_asan", prop="filter", cases=T(4000, 60000), procs=T(8, 16))],
+          "to 200 taps a constant a8r8g8b8 image stays constant under the filter. Non-trivial = width >= 2 or >= 1 phase bit on an axis."
+          " Also run coverage-guided: the libFuzzer target fz_filter decodes the fuzzer's bytes through the same generator into the same oracle (ASan build)."),
+    jobs=[dict(harness="filter_asan", prop="filter", cases=T(4000, 60000), procs=T(8, 16)),
+          dict(harness="fz_filter", prop="filter", kind="fuzz", cases=T(40000, 1500000), procs=T(2, 3), max_len=300)],
     floor=T(20000, 500000), nt_floor=T(5000, 100000),
     assumptions=["the constant-image consequence is asserted only for kernels of <= 200 taps: the fetchers round every x*y coefficient product, so for huge kernels a drift is arithmetic of the fetcher, not of the table"],
 )
@@ -177,11 +189,12 @@ CHECKS["C12"] = dict(
           "split, edge split with the middle line given by the same two points, whole-pixel offset commutation, triangle = "
           "independent two-trapezoid decomposition and permutation invariance, add_traps = rasterize of the equivalent trapezoid, "
           "composite_trapezoids(op in CLEAR..SATURATE, solid/bits source, 6 destination formats) = rasterise into a zeroed mask + "
-          "composite32. Non-trivial = some sample covered and a non-vertical edge (law dependent)."),
+          "composite32. Non-trivial = some sample covered and a non-vertical edge (law dependent)."
+          " Also run coverage-guided: the libFuzzer target fz_traps decodes the fuzzer's bytes through the same generator into the same oracle (ASan build)."),
     jobs=[
         dict(harness="traps", prop="traps", cases=T(40000, 800000), procs=T(8, 14)),
         dict(harness="traps_asan", prop="traps", cases=T(5000, 100000), procs=T(2, 2)),
-    ],
+          dict(harness="fz_traps", prop="traps", kind="fuzz", cases=T(40000, 1500000), procs=T(2, 3), max_len=400)],
     floor=T(200000, 5000000), nt_floor=T(50000, 500000),
     assumptions=["sample grid positions follow Render's N_X_FRAC x N_Y_FRAC layout (first = (1 - (N-1)*floor(1/N))/2, spacing floor(1/N))",
                  "tie handling (edge exactly through a sample point) is not pinned by the statement: such pixels are excluded from the model check and law mismatches confined to them are the known finding S17",
@@ -372,14 +385,15 @@ CHECKS["C17"] = dict(
           "equal per-glyph composite32 with a copy of the glyph (component alpha iff the format has A and RGB), composite_glyphs "
           "must equal ADD-accumulating (white IN glyph) into a zeroed a8/a1/a4/a8r8g8b8 mask and one composite32, bit for bit on "
           "defined bits. Non-trivial = a thaw that evicts, a full table, or removals among >= 3 entries (cache); overlapping "
-          "glyphs of >= 2 formats (draw)."),
+          "glyphs of >= 2 formats (draw)."
+          " Also run coverage-guided: the libFuzzer target fz_glyphs decodes the fuzzer's bytes through the same generator into the same oracle (ASan build, 16-slot glyph table)."),
     jobs=[
         dict(harness="glyphs_small", prop="cache", cases=T(6000, 100000), procs=T(4, 8), args=["--watchdog", "10"]),
         dict(harness="glyphs", prop="cache", cases=T(4000, 60000), procs=T(2, 4), args=["--watchdog", "10"]),
         dict(harness="glyphs", prop="bigcache", cases=T(2, 8), procs=T(3, 8), args=["--watchdog", "120"]),
         dict(harness="glyphs", prop="draw", cases=T(8000, 150000), procs=T(4, 8)),
         dict(harness="glyphs_asan", prop="draw", cases=T(2500, 50000), procs=T(2, 4)),
-    ],
+          dict(harness="fz_glyphs", prop="cache", kind="fuzz", cases=T(40000, 1500000), procs=T(2, 3), max_len=600)],
     floor=T(40000, 600000), nt_floor=T(10000, 150000),
     assumptions=["callers look a key up before inserting it (duplicate inserts are not generated) and insert only into a frozen cache",
                  "entries evicted by a thaw leave tombstones like removed ones; 'above the high-water mark' counts glyphs plus tombstones, as the implementation documents (it then dumps the whole table)",
